@@ -123,8 +123,9 @@ PROPS = {
                  "calls (arbitrary Option<u32>) for one arm / nesting shape of the real merge-expression interpreter "
                  "ResolvedMergeFn::run; non-trivial iff every `witness:` cover is SATISFIED"),
         "assumptions": [
-            "kernel level: the interpreter of compiled merge expressions is exact for every arm (Old, New, Const, AssertEq = :no-merge, "
-            "UnionId, Primitive, Function) and for nesting depth <= 2; THAT the merge is applied on every collision (the four collision "
+            "kernel level: the interpreter of compiled merge expressions is exact for the arms Old, New, Const, AssertEq (= :no-merge), "
+            "UnionId (under C01) and Primitive (nesting depth 2 in the thorough tier); the Function arm is NOT decided (its harness did not "
+            "finish under CBMC); THAT the merge is applied on every collision (the four collision "
             "paths of SortedWritesTable, MergeFn::to_callback, order / batching / thread independence of the fold) is NOT covered",
             "ExecutionState::{stage_insert, call_external_func} and TableAction::lookup_or_insert are replaced by recorders returning "
             "arbitrary values (the real ones reach ArcSwap / hash tables)",
